@@ -82,6 +82,27 @@ LOOPS += [
               "St.segFirst is unused"),
 ]
 
+GD = "skrifa/src/outline/glyf/deltas.rs"
+LOOPS += [
+    dict(id="deltaFirst", file=GD, func="interpolate_deltas",
+         anchor=r"let\s+first_point_ix\s*=\s*point_ix\s*;\s*while\s+point_ix\s*<=\s*end_point_ix\s*&&\s*!flags\.get\(point_ix\)\?\.has_marker\(PointMarker::HAS_DELTA\)\s*\{",
+         while_cond="point_ix <= end_point_ix && !flags.get(point_ix)?.has_marker(PointMarker::HAS_DELTA)",
+         step="deltaFirstStep", last="point_ix", seg="end_point_ix", generic=True, nested=[],
+         what="glyf interpolate_deltas: search the first point of the contour that has a delta"),
+    dict(id="deltaNext", file=GD, func="interpolate_deltas",
+         anchor=r"let\s+mut\s+cur_delta_ix\s*=\s*point_ix\s*;\s*point_ix\s*\+=\s*1\s*;\s*while\s+point_ix\s*<=\s*end_point_ix\s*\{",
+         while_cond="point_ix <= end_point_ix",
+         step="deltaNextStep", last="point_ix", seg="end_point_ix", generic=True, nested=[],
+         what="glyf interpolate_deltas: walk the rest of the contour, interpolating between points with deltas; "
+              "entered after `point_ix += 1`"),
+    dict(id="widths", file=AH + "metrics/mod.rs", func="sort_and_quantize_widths",
+         anchor=r"let\s+mut\s+ix\s*=\s*1\s*;\s*while\s+ix\s*<\s*table\.len\(\)\s*\{",
+         while_cond="ix < table.len()", len_expr="table.len()",
+         step="widthsStep", last="ix", seg="table_len", generic=True, nested=[],
+         what="sort_and_quantize_widths: cluster the sorted widths (`while ix < table.len()`, `ix` advanced by 1 or 2); "
+              "St.segFirst = table.len()"),
+]
+
 CONTOUR_FNS = {
     "range": "pub fn range(self) -> Range<usize> { self.first()..self.last() + 1 }",
     "next": "pub fn next(self, index: usize) -> usize { if index >= self.last_ix as usize { self.first_ix as usize } else { index + 1 } }",
@@ -131,9 +152,39 @@ class Parser(B.Parser):
             self.saw_try = True
         return e
 
+    def if_stmt(self):
+        ln = self.line()
+        assert self.kw("if")
+        if self.peek_kw("let"):
+            self.fail("`if let` is outside the subset")
+        cond = self.scan("{;}")
+        if not self.s.startswith("{", self.i):
+            self.fail("expected `{` after the condition")
+        if re.search(r"\breturn\b|\bbreak\b|\bcontinue\b", cond):
+            self.fail("control transfer inside a condition is outside the subset")
+        cid = self.nconds
+        self.nconds += 1
+        node = {"k": "if", "line": ln, "cond": cond, "id": cid}
+        if "?" in cond:
+            node["try_id"] = self.nconds
+            self.nconds += 1
+        node["then"] = self.block()
+        node["else"] = []
+        if self.kw("else"):
+            node["else"] = [self.if_stmt()] if self.peek_kw("if") else self.block()
+        return node
+
     def stmt(self):
         self.ws()
         ln = self.line()
+        if self.kw("for"):
+            hdr = self.scan("{;}")
+            if not self.s.startswith("{", self.i):
+                self.fail("expected `{` after the `for` header")
+            if "?" in hdr or re.search(r"\breturn\b|\bbreak\b|\bcontinue\b", hdr):
+                self.fail("control transfer inside a `for` header is outside the subset")
+            body = self.block()
+            return {"k": "for", "line": ln, "text": f"for {hdr} {{ … }}", "body": body}
         m = re.match(r"'(\w+)\s*:\s*(?=loop\b)", self.s[self.i:])
         if m:
             self.i += m.end()
@@ -168,6 +219,14 @@ class Parser(B.Parser):
             return {"k": "break", "line": ln, "ret": True, "label": "fn"}
         start = self.i
         self.saw_try = False
+        m = re.match(r"\*\s*([A-Za-z_]\w*)\s*(?:[-+*/%|&^]|<<|>>)?=(?!=)", self.s[self.i:])
+        if m:       # assignment through a reference: data
+            self.i += m.end()
+            e = self.expr_until_semicolon()
+            st = {"k": "let", "line": ln, "text": f"*{m.group(1)} … = {e};", "call": True, "deref": m.group(1)}
+            if self.saw_try:
+                self.fail("`?` in this position is outside the subset")
+            return st
         try:
             st = super().stmt()
         except Unsupported as ex:
@@ -175,7 +234,8 @@ class Parser(B.Parser):
                 raise
             # expression statement: a (method) call
             self.i = start
-            if not re.match(r"[A-Za-z_][\w:]*(\s*\.\s*\w+|\s*\[[^\]\n]*\])*\s*\(", self.s[self.i:]):
+            if (re.match(r"(if|match|for|while|loop|let)\b", self.s[self.i:]) or
+                    not re.match(r"[A-Za-z_][\w:]*(\s*\.\s*\w+|\s*\[[^\]\n]*\])*\s*\(", self.s[self.i:])):
                 raise
             e = self.expr_until_semicolon()
             st = {"k": "let", "line": ln, "text": e + ";", "call": True}
@@ -232,6 +292,8 @@ class LoopGen:
     def ctl(self, e, names, boolean, line, allow_havoc_arg=True):
         """Lean text of `e` if it is a control expression over `names`, else None"""
         e = e.strip()
+        if self.spec.get("len_expr"):
+            e = e.replace(self.spec["len_expr"], self.spec["seg"])
         subs = []
         if self.link and self.link["expr"] in e:
             if self.link["index"] not in names:
@@ -372,11 +434,26 @@ class LoopGen:
         if k == "assign":
             return st["var"] in names and not st["proj"]
         if k == "if":
-            return any(self.has_effect(x, names) for x in st["then"] + st["else"])
+            return bool(st.get("try_id") is not None) or any(self.has_effect(x, names) for x in st["then"] + st["else"])
+        if k == "for":
+            # a `for` over a finite iterator is a data statement provided its body has no control effect at all
+            def clean(x):
+                if x["k"] in ("break", "continue", "loop", "try", "for"):
+                    return False
+                if x["k"] == "assign" and x["var"] in names and not x["proj"]:
+                    return False
+                if x["k"] == "if":
+                    return x.get("try_id") is None and all(clean(y) for y in x["then"] + x["else"])
+                return True
+            if not all(clean(x) for x in st["body"]):
+                raise Unsupported(f"line {st['line']}: a `for` body with control effects is outside the subset")
+            return False
         return False
 
     def check_data(self, st, names):
         txt = st.get("text", "")
+        if st.get("deref") in names:
+            raise Unsupported(f"line {st['line']}: assignment through `*{st['deref']}` (a control variable)")
         for n in names:
             if re.search(r"&\s*mut\s+" + n + r"\b", txt):
                 raise Unsupported(f"line {st['line']}: control variable `{n}` is borrowed mutably")
@@ -529,8 +606,12 @@ class LoopGen:
                        f"{pad}| some {r} =>"] + rebind
             return out + self.seq(rest, ind + 1, names, slots)
         if k == "if":
+            pre = []
+            if st.get("try_id") is not None:
+                self.tries[st["try_id"]] = (st["line"], f"if {st['cond']}")
+                pre = [f"{pad}if o {st['try_id']} tick then {leave} {exit_state} else"]
             c = self.cond(st, names)
-            return ([f"{pad}if {c} then"] + self.seq(st["then"] + rest, ind + 1, names, slots) +
+            return (pre + [f"{pad}if {c} then"] + self.seq(st["then"] + rest, ind + 1, names, slots) +
                     [f"{pad}else"] + self.seq(st["else"] + rest, ind + 1, names, slots))
         raise Unsupported(f"line {st['line']}: internal: statement kind {k}")
 
@@ -572,7 +653,7 @@ ENTRY = {
 
 def check_entry(src, spec):
     """the statements that produce the entry state the `…_from_entry` theorems of Props/C02Autohint.lean start from"""
-    m = re.search(r"\bfn\s+" + spec["func"] + r"\s*\(", src)
+    m = re.search(r"\bfn\s+" + spec["func"] + r"\s*(?:<[^>(]*>)?\s*\(", src)
     fb = src.index("{", m.end())
     flat = " ".join(src[fb:B.match_brace(src, fb) + 1].split())
     for t in ENTRY.get(spec["id"], []):
@@ -581,7 +662,7 @@ def check_entry(src, spec):
 
 
 def locate(src, spec):
-    m = re.search(r"\bfn\s+" + spec["func"] + r"\s*\(", src)
+    m = re.search(r"\bfn\s+" + spec["func"] + r"\s*(?:<[^>(]*>)?\s*\(", src)
     if not m:
         raise Unsupported(f"anchor: fn {spec['func']} not found in {spec['file']}")
     fb = src.index("{", m.end())
@@ -690,6 +771,11 @@ def generate(read):
             body = [{"k": "if", "line": line0, "cond": spec["while_cond"], "id": p.nconds, "then": [],
                      "else": [{"k": "break", "line": line0}], "while": True}] + body
             p.nconds += 1
+            if "?" in spec["while_cond"]:
+                body = [{"k": "try", "line": line0, "id": p.nconds, "text": f"while {spec['while_cond']}",
+                         "inner": {"k": "let", "line": line0, "call": True,
+                                   "text": f"(`?` in the condition of `while {spec['while_cond']}`)"}}] + body
+                p.nconds += 1
         g = LoopGen(spec)
         g.loop(body, spec["step"], (spec["last"], spec["seg"]))
         if g.nested_specs:
